@@ -484,11 +484,28 @@ impl Hist {
 
     pub fn increase(&mut self, w: &mut World, i: usize, l: u128, monitors: &mut [Box<dyn Monitor>], acc: &mut Acc) -> Obs {
         let p = w.positions[i].pool;
-        let ix = if w.pool_is_spl(p) && w.r.gen() {
+        let mut ix = if w.pool_is_spl(p) && w.r.gen() {
             w.modify_v1(i).increase_liquidity(l, u64::MAX, u64::MAX)
         } else {
             w.modify_v2(i).increase_liquidity_v2(l, u64::MAX, u64::MAX, None)
         };
+        // one time in fifteen the client names the NEIGHBOURING tick array (one array above or below the right one) for
+        // one of the bounds: the tick is not in that array, the instruction must fail
+        if rnd::chance(&mut w.r, 1, 15) {
+            let pi = w.positions[i].clone();
+            let tia = 88 * w.pools[p].tick_spacing as i32;
+            let (slot, tick) = if w.r.gen() { ("tick_array_lower", pi.lower) } else { ("tick_array_upper", pi.upper) };
+            let off = if w.r.gen() { tia } else { -tia };
+            let t = tick as i64 + off as i64;
+            if t >= MIN_TICK_INDEX as i64 - tia as i64 && t <= MAX_TICK_INDEX as i64 && ix.slot(slot).is_some() {
+                let dynamic = w.r.gen();
+                let key = w.ensure_tick_array(p, (t as i32).clamp(MIN_TICK_INDEX, MAX_TICK_INDEX), dynamic);
+                if key != ix.key(slot) {
+                    ix = ix.with_key(slot, key);
+                    acc.count("liquidity_ix_naming_a_neighbouring_tick_array");
+                }
+            }
+        }
         self.step(w, ix, monitors, acc)
     }
 
@@ -1117,11 +1134,26 @@ impl Hist {
                     3 | 4 | 5 => w.r.gen_range(0..4),
                     _ => w.r.gen_range(0..256),
                 };
-                let (lo, hi) = self.gen_range(w, p);
+                let (mut lo, mut hi) = self.gen_range(w, p);
+                // one bundled open in four leaves a bound to be derived from the price (as the other open flavours do)
+                if rnd::chance(&mut w.r, 1, 4) {
+                    let near = usable(st.tick_current_index, pool.tick_spacing);
+                    let s = pool.tick_spacing as i32;
+                    match w.r.gen_range(0..3) {
+                        0 => (lo, hi) = (i32::MIN, near + w.r.gen_range(1..40) * s),
+                        1 => (lo, hi) = (near - w.r.gen_range(1..40) * s, i32::MAX),
+                        _ => (lo, hi) = (i32::MIN, near - w.r.gen_range(0..5) * s),
+                    }
+                    acc.count("bundled_opens_with_a_derived_bound");
+                }
                 let bp = b::pda_bundled_position_u16(mint, idx).0;
                 let ix = b::OpenBundledPosition { bundled_position: bp, position_bundle: b::pda_position_bundle(mint).0, position_bundle_token_account: ta, position_bundle_authority: w.users[u].key, whirlpool: pool.key, funder: ADMIN, system_program: system_program::ID, rent: RENT_ID }.ix(idx, lo, hi);
                 let o = self.step(w, ix, monitors, acc);
                 if o.ok() {
+                    if let Some(pp) = w.bank.data(&bp).and_then(codec::Position::decode) {
+                        lo = pp.tick_lower_index;
+                        hi = pp.tick_upper_index;
+                    }
                     w.positions.push(PosInfo { pool: p, position: bp, mint, owner: u, token_account: ta, kind: PosKind::Bundled { bundle_mint: mint, index: idx }, lower: lo, upper: hi, closed: false, locked: false });
                     if w.r.gen() {
                         let i = w.positions.len() - 1;
